@@ -248,6 +248,78 @@ class FuncSym(object):
             return iv[1], iv[2], iv[3]
         return None
 
+    def _open_loop_start(self, vid, at):
+        for loop in self.enclosing_all(at, ('ForStmt',)):
+            init, _cv, cond, inc, body = loop.kids
+            if cond.kind != 'Null':
+                continue
+            v0 = None
+            if init.kind == 'DeclStmt' and init.kids and init.kids[0].kind == 'VarDecl' and init.kids[0].id == vid and init.kids[0].kids:
+                v0 = self.sym(init.kids[0].kids[-1])
+            i = strip(inc)
+            up = i is not None and ((i.kind == 'UnaryOperator' and i.op == '++') or (i.kind == 'CompoundAssignOperator' and i.op == '+=' and (int_value(i.kids[1]) or 0) > 0)) \
+                and strip(i.kids[0]).kind == 'DeclRefExpr' and strip(i.kids[0]).refid == vid
+            if v0 is None or not up:
+                continue
+            if any(((n.kind == 'BinaryOperator' and n.op == '=') or n.kind == 'CompoundAssignOperator' or (n.kind == 'UnaryOperator' and n.op in ('++', '--', '&')))
+                   and strip(n.kids[0]).kind == 'DeclRefExpr' and strip(n.kids[0]).refid == vid for n in body.walk()):
+                continue
+            return v0
+        return None
+
+    def guard_bound(self, vid, at, want_max):
+        """bound on local `vid` implied at node `at` by the conditions of enclosing if statements (then-branch: the condition
+        holds; else-branch: it does not), provided the variable is not modified between the test and the use (it is not
+        modified inside that branch before `at`).  Returns a Lin (inclusive bound) or None."""
+        child = at
+        p = self.parent.get(at.uid)
+        best = None
+        while p is not None:
+            if p.kind == 'IfStmt' and child is not p.kids[0]:
+                in_then = child is p.kids[1]
+                c = strip(p.kids[0], casts=True)
+                conj = []
+                st = [c]
+                while st:
+                    x = strip(st.pop(), casts=True)
+                    if x is not None and x.kind == 'BinaryOperator' and x.op == '&&' and in_then:
+                        st += [x.kids[0], x.kids[1]]
+                    elif x is not None and x.kind == 'BinaryOperator' and x.op == '||' and not in_then:
+                        st += [x.kids[0], x.kids[1]]
+                    elif x is not None:
+                        conj.append(x)
+                for x in conj:
+                    if x.kind != 'BinaryOperator' or x.op not in ('<', '<=', '>', '>='):
+                        continue
+                    l, r = strip(x.kids[0], casts=True), strip(x.kids[1], casts=True)
+                    op = x.op
+                    if r.kind == 'DeclRefExpr' and r.refid == vid and not (l.kind == 'DeclRefExpr' and l.refid == vid):
+                        l, r, op = r, l, {'<': '>', '>': '<', '<=': '>=', '>=': '<='}[op]
+                    if not (l.kind == 'DeclRefExpr' and l.refid == vid):
+                        continue
+                    if not in_then:
+                        op = {'<': '>=', '>=': '<', '>': '<=', '<=': '>'}[op]
+                    # the variable must not be modified inside the branch
+                    branch = p.kids[1] if in_then else p.kids[2]
+                    if any(((n.kind == 'BinaryOperator' and n.op == '=') or n.kind == 'CompoundAssignOperator' or (n.kind == 'UnaryOperator' and n.op in ('++', '--', '&')))
+                           and strip(n.kids[0]).kind == 'DeclRefExpr' and strip(n.kids[0]).refid == vid for n in branch.walk()):
+                        continue
+                    e = self.sym(r)
+                    if want_max and op in ('<', '<='):
+                        b = e - Lin(1) if op == '<' else e
+                        best = b if best is None else best
+                    if not want_max and op in ('>', '>='):
+                        b = e + Lin(1) if op == '>' else e
+                        best = b if best is None else best
+            if p.kind in ('ForStmt', 'WhileStmt', 'DoStmt'):
+                # guards outside the loop that modifies the variable say nothing about later iterations
+                if any(((n.kind == 'CompoundAssignOperator') or (n.kind == 'UnaryOperator' and n.op in ('++', '--')) or (n.kind == 'BinaryOperator' and n.op == '='))
+                       and strip(n.kids[0]).kind == 'DeclRefExpr' and strip(n.kids[0]).refid == vid for n in p.walk()):
+                    break
+            child = p
+            p = self.parent.get(p.uid)
+        return best
+
     def _induction_while(self, loop):
         """`v = E; while (v >= c) { ...; --v; }` (and the ascending mirror): the counter is declared/assigned once before the
         loop, tested in the condition, and stepped by the LAST statement of the body and nowhere else."""
@@ -414,11 +486,29 @@ class FuncSym(object):
             vid = ids.get(a)
             if vid is None:
                 continue
+            k = s.t[a]
+            want_max = (k > 0) == upper
+            # a guard that encloses the use tightens the loop range: `if (v < E) { ... use ... }`
+            gb = self.guard_bound(vid, at, want_max)
             r = self.loop_range(vid, at)
+            if gb is not None and (r is None or want_max):
+                # for an upper bound the guard wins when it is at most the loop bound (the usual `i < width - 1` inside `i < width`)
+                if r is None or not want_max:
+                    s = s.subst(a, gb)
+                    continue
+                d = (r[1] - Lin(1)) - gb
+                if d.is_const() and d.c >= 0:
+                    s = s.subst(a, gb)
+                    continue
+            if r is None and not want_max:
+                # `for (v = lo;; ++v)`: no loop condition, but the counter only grows from its initial value
+                lo0 = self._open_loop_start(vid, at)
+                if lo0 is not None:
+                    s = s.subst(a, lo0)
+                    continue
             if r is not None:
                 lo, hi, step = r
-                k = s.t[a]
-                ext = (hi - Lin(1)) if (k > 0) == upper else lo
+                ext = (hi - Lin(1)) if want_max else lo
                 s = s.subst(a, ext)
             elif vid in self.mutated or len(self.defs.get(vid, [])) > 1:
                 return None
